@@ -497,8 +497,9 @@ fn create_archive(
     fallback_frac: f64,
     cpp_agc: bool,
 ) -> Result<()> {
-    // Determine thread count (use provided or auto-detect)
-    let num_threads = threads.unwrap_or_else(|| {
+    // Determine thread count (use provided or auto-detect; 0 means auto-detect, as for rayon -
+    // the compressor spawns exactly num_threads workers, so 0 would leave nobody to compress)
+    let num_threads = threads.filter(|&t| t > 0).unwrap_or_else(|| {
         let num_cpus = num_cpus::get();
         if num_cpus < 8 {
             num_cpus
